@@ -3,6 +3,7 @@
 //	c01 replay <cases.ndjson> <events.ndjson>   histories emitted by TLC: {term, lens: {leaf id: bit length}, reqs: [...]}
 //	c01 rand <n> <events.ndjson>                seeded random compositions and histories beyond TLC's constants
 //	c01 write <n> <events.ndjson>               bit writers: random WriteBits sequences and the bytes produced
+//	c01 buffer <n> <events.ndjson>              bitio.Buffer: random interleavings of WriteBits / ReadBits / Len / Bits / Reset
 //	c01 stack <n> <events.ndjson>               the open-file stack over real files (large offsets, block boundaries)
 package main
 
@@ -58,6 +59,18 @@ type Op struct {
 	Msg  string `json:"msg"`
 }
 
+// BOp is one call on a bitio.Buffer and what it returned.
+type BOp struct {
+	Op   string `json:"op"`
+	Bits []int  `json:"bits"`
+	N    int64  `json:"n"`
+	K    int64  `json:"k"`
+	Out  []int  `json:"out"`
+	EOF  bool   `json:"eof"`
+	Err  bool   `json:"err"`
+	Res  int64  `json:"res"`
+}
+
 type Case struct {
 	Term Term             `json:"term"`
 	Lens map[string]int64 `json:"lens"`
@@ -69,6 +82,7 @@ type Event struct {
 	Term   Term             `json:"term"`
 	Leaves map[string][]int `json:"leaves"`
 	Ops    []Op             `json:"ops"`
+	BOps   []BOp            `json:"bops,omitempty"`
 	Chunks [][]int          `json:"chunks"`
 	OutB   []int            `json:"outbits"`
 	Panic  string           `json:"panic"`
@@ -582,7 +596,89 @@ func (g *gen) history(unit int, total int64, seekable bool) []Op {
 	return ops
 }
 
+// longCase: a byte or bit view over a long concatenation with sub-reader boundaries off the byte grid, consumed front to back in
+// chunks (hundreds of bytes pass through the carry buffers of the adapters, which short histories over short leaves never do)
+func longCase(rng *rand.Rand) Case {
+	g := &gen{rng: rng, lens: map[string]int64{}}
+	t := &Term{T: "multi"}
+	var tot int64
+	m := 2 + rng.Intn(3)
+	for i := 0; i < m; i++ {
+		if rng.Intn(6) == 0 {
+			n := int64(rng.Intn(40))
+			t.Rs = append(t.Rs, &Term{T: "zero", N: n})
+			tot += n
+			continue
+		}
+		g.nid++
+		id := fmt.Sprintf("l%d", g.nid)
+		var n int64
+		switch rng.Intn(3) {
+		case 0:
+			n = int64(rng.Intn(12))
+		case 1:
+			n = int64(8 * rng.Intn(300))
+		default:
+			n = int64(rng.Intn(3000))
+		}
+		g.lens[id] = n
+		t.Rs = append(t.Rs, &Term{T: "leaf", ID: id})
+		tot += n
+	}
+	nb := (tot + 7) / 8
+	var top *Term
+	unit, seekable, total := 8, true, nb
+	switch rng.Intn(5) {
+	case 0:
+		top, seekable = &Term{T: "ioreader", R: t}, false
+	case 1:
+		top = &Term{T: "tobytes", R: t}
+	case 2:
+		top, unit, total = &Term{T: "frombytes", Y: &Term{T: "tobytes", R: t}}, 1, nb*8
+	case 3:
+		top, unit, total = &Term{T: "frombytes", Y: &Term{T: "ahead", Y: &Term{T: "tobytes", R: t}, M: int64(1 + rng.Intn(300))}}, 1, nb*8
+	default:
+		top, unit, total = t, 1, tot
+	}
+	sizes := []int64{1, 2, 3, 5, 16, 31, 64, 100, 257, 600}
+	if unit == 1 {
+		sizes = []int64{7, 64, 129, 1000, 2049, 4000}
+	}
+	var ops []Op
+	var pos int64
+	for len(ops) < 40 && pos <= total {
+		o := Op{QP: rng.Intn(3) == 0}
+		switch k := rng.Intn(10); {
+		case k < 7:
+			o.Op = "read"
+			o.N = sizes[rng.Intn(len(sizes))]
+			pos += o.N
+		case k < 8:
+			o.Op = "readfull"
+			o.N = sizes[rng.Intn(len(sizes))]
+			pos += o.N
+		case seekable:
+			o.Op = "seek"
+			o.Wh = 1
+			o.Off = -int64(rng.Intn(20))
+			if unit == 1 {
+				o.Off *= 5
+			}
+			pos += o.Off
+		default:
+			o.Op = "read"
+			o.N = 1
+			pos += o.N
+		}
+		ops = append(ops, o)
+	}
+	return Case{Term: *top, Lens: g.lens, Reqs: ops}
+}
+
 func randCase(rng *rand.Rand) Case {
+	if rng.Intn(12) == 0 {
+		return longCase(rng)
+	}
 	g := &gen{rng: rng, lens: map[string]int64{}}
 	var t *Term
 	var total int64
@@ -742,6 +838,14 @@ func main() {
 			out.Emit(writeCase(rng, i))
 		}
 		out.Close()
+	case "buffer":
+		n := kit.Atoi(os.Args[2])
+		out := kit.NewOut(os.Args[3])
+		rng := rand.New(rand.NewSource(seed))
+		for i := 0; i < n; i++ {
+			out.Emit(bufferCase(rng, i))
+		}
+		out.Close()
 	default:
 		kit.Fatalf("unknown mode %q", os.Args[1])
 	}
@@ -777,6 +881,63 @@ func writeCase(rng *rand.Rand, i int) (ev Event) {
 	} else {
 		w.Flush()
 		ev.OutB = bitsOf(bb.Bytes(), int64(bb.Len())*8)
+	}
+	return ev
+}
+
+// bufferCase: bitio.Buffer as a bit queue: interleaved WriteBits / ReadBits / Len / Bits / Reset, every result recorded.
+// One case in four is long: large chunks, never drained, so that hundreds of already read bytes stay in front of the unread ones.
+func bufferCase(rng *rand.Rand, i int) (ev Event) {
+	ev = Event{Kind: "buffer", Leaves: map[string][]int{}, Ops: []Op{}, Chunks: [][]int{}, OutB: []int{}, Term: Term{T: "buffer"}}
+	defer func() {
+		if r := recover(); r != nil {
+			ev.Panic = fmt.Sprint(r)
+		}
+	}()
+	long := i%4 == 3
+	nops := 3 + rng.Intn(25)
+	wsizes := []int64{0, 1, 3, 7, 8, 9, 15, 16, 17, 31, 33, 63, 64, 65, 127, 200}
+	rsizes := []int64{0, 1, 2, 3, 5, 7, 8, 9, 13, 16, 17, 31, 32, 33, 63, 64, 65, 100, 130}
+	if long {
+		nops = 20 + rng.Intn(30)
+		wsizes = []int64{3, 9, 64, 257, 600, 801, 1024, 2047}
+		rsizes = []int64{1, 8, 63, 256, 511, 800, 1000}
+	}
+	var b bitio.Buffer
+	var held int64
+	for c := 0; c < nops; c++ {
+		k := rng.Intn(20)
+		switch {
+		case k < 8 || (long && held < 16 && k < 16):
+			n := wsizes[rng.Intn(len(wsizes))]
+			p := make([]byte, (n+7)/8+1)
+			rng.Read(p)
+			w, err := b.WriteBits(p, n)
+			ev.BOps = append(ev.BOps, BOp{Op: "write", Bits: bitsOf(p, n), K: w, Err: err != nil, Out: []int{}})
+			held += n
+		case k < 16:
+			n := rsizes[rng.Intn(len(rsizes))]
+			if long && n >= held && held > 1 {
+				n = held - 1 // never drained: the buffer is only ever reset by a read that finds it empty
+			}
+			p := dirty((n+7)/8 + 1)
+			r, err := b.ReadBits(p, n)
+			o := BOp{Op: "read", Bits: []int{}, N: n, K: r, EOF: errors.Is(err, io.EOF), Err: err != nil && !errors.Is(err, io.EOF), Out: []int{}}
+			if r >= 0 && r <= n {
+				o.Out = bitsOf(p, r)
+				held -= r
+			}
+			ev.BOps = append(ev.BOps, o)
+		case k < 18:
+			ev.BOps = append(ev.BOps, BOp{Op: "len", Bits: []int{}, Res: b.Len(), Out: []int{}})
+		case k < 19 || long:
+			bs, n := b.Bits()
+			ev.BOps = append(ev.BOps, BOp{Op: "bits", Bits: []int{}, Res: n, Out: bitsOf(bs, int64(len(bs))*8)})
+		default:
+			b.Reset()
+			held = 0
+			ev.BOps = append(ev.BOps, BOp{Op: "reset", Bits: []int{}, Out: []int{}})
+		}
 	}
 	return ev
 }
